@@ -22,7 +22,7 @@ GroupsAt(path) == CASE path = "" -> {"g"} [] path = "g" -> {"g.h"} [] OTHER -> {
 \* the signature of a key is the union over locales, so a use in any locale counts
 Frame(f) ==
     /\ f \in frames
-    /\ used' = used \cup { OptionOf(u.feat) : u \in { x \in proj.uses : x.unit = f[1] /\ x.where \in ValuesAt(f[2]) } }
+    /\ used' = used \cup UNION { OptionsOf(u.feat) : u \in { x \in proj.uses : x.unit = f[1] /\ x.where \in ValuesAt(f[2]) } }
     /\ frames' = (frames \ {f}) \cup { <<f[1], g>> : g \in GroupsAt(f[2]) }
     /\ UNCHANGED proj
 Next == \E f \in frames : Frame(f)
